@@ -377,23 +377,27 @@ def tpToks : Nat → Str → Str → List Str → List Str
       else if c == '(' || c == ')' || c == ',' then tpToks n cs [] ([c] :: flushWord w acc)
       else tpToks n cs [] (flushWord w acc)
 
-/-- `maskedTokenInTablePosition`: armed flags by depth (head = current), after-FROM/JOIN flag -/
-def tablePos (flag : Str → Bool) : List Str → List Bool → Bool → Bool
-  | [], _, _ => false
+/-- `maskedTokenInTablePosition`: armed flags by depth (head = current), after-FROM/JOIN flag; returns
+the FIRST flagged placeholder in table position -/
+def tablePosFirst (flag : Str → Bool) : List Str → List Bool → Bool → Option Str
+  | [], _, _ => none
   | tok :: r, armed, after =>
-    if tok == ['('] then tablePos flag r (false :: armed) false
+    if tok == ['('] then tablePosFirst flag r (false :: armed) false
     else if tok == [')'] then
       (match armed with
-       | _ :: b :: bs => tablePos flag r (b :: bs) false
-       | a => tablePos flag r a false)
-    else if tok == [','] then tablePos flag r armed (armed.headD false)
+       | _ :: b :: bs => tablePosFirst flag r (b :: bs) false
+       | a => tablePosFirst flag r a false)
+    else if tok == [','] then tablePosFirst flag r armed (armed.headD false)
     else if "__STR_".toList.isPrefixOf tok || "__IDENT_".toList.isPrefixOf tok then
-      (after && flag tok) || tablePos flag r armed false
+      if after && flag tok then some tok else tablePosFirst flag r armed false
     else
       let l := lowerAscii tok
-      if l == "from".toList || l == "join".toList then tablePos flag r (true :: armed.tail) true
-      else if terminators.contains l then tablePos flag r (false :: armed.tail) false
-      else tablePos flag r armed false
+      if l == "from".toList || l == "join".toList then tablePosFirst flag r (true :: armed.tail) true
+      else if terminators.contains l then tablePosFirst flag r (false :: armed.tail) false
+      else tablePosFirst flag r armed false
+
+def tablePos (flag : Str → Bool) (toks : List Str) (armed : List Bool) (after : Bool) : Bool :=
+  (tablePosFirst flag toks armed after).isSome
 
 def trimRightSet (set : Str) (s : Str) : Str := (s.reverse.dropWhile (fun c => set.contains c)).reverse
 
@@ -415,11 +419,16 @@ def validate (s : Str) : Verdict :=
       else if tablePos (fun t => "__STR_".toList.isPrefixOf t) (tpToks (ioN.length + 1) ioN [] []) [false] false then .strtab
       else
         let I := identNames ms
-        if !I.isEmpty && tablePos (fun t => "__IDENT_".toList.isPrefixOf t &&
+        -- the scan stops at the first flagged token; the request is rejected only when the offending
+        -- NAME is non-empty (`""` in table position slips through: `if name != ""`)
+        let first := if I.isEmpty then none else
+          tablePosFirst (fun t => "__IDENT_".toList.isPrefixOf t &&
               (match I.lookup t with
                | some name => !validName name
-               | none => true)) (tpToks (normalised.length + 1) normalised [] []) [false] false then .identtab
-        else .ok
+               | none => true)) (tpToks (normalised.length + 1) normalised [] []) [false] false
+        match first with
+        | some t => if ((I.lookup t).getD t).isEmpty then .ok else .identtab
+        | none => .ok
 
 /-! ## header rules -/
 
